@@ -325,7 +325,7 @@ func TestCatalogueMatrix(t *testing.T) {
 }
 
 func TestRandomCells(t *testing.T) {
-	vt.Check(t, vt.N(3000, 120000), func(rt *rapid.T) {
+	vt.Check(t, vt.N(3000, 400000), func(rt *rapid.T) {
 		c := Case{Construct: rapid.IntRange(0, len(catalogue)-1).Draw(rt, "construct"), Outer: rapid.IntRange(0, len(outers)-1).Draw(rt, "outer"),
 			Handler: rapid.SampledFrom(handlers).Draw(rt, "handler"), Kind: rapid.SampledFrom(errKinds).Draw(rt, "kind")}
 		if stopIterOK(catalogue[c.Construct]) && rapid.IntRange(0, 4).Draw(rt, "stopiter") == 0 {
